@@ -61,6 +61,14 @@ def extra(ex, ck, worst):
                                       cap=c09_bound(n) + 1)
                         k = (strategy, n)
                         worst[k] = max(worst.get(k, 0), run1.tests)
+    # option combinations on the pair strategies: --repeat-first-round (which they accept and ignore) with repeat modes
+    # and --max that make the FIRST chunk size repeatable
+    for strategy in ("minimize-around", "minimize-balanced"):
+        for cfg in ({"first": True, "repeat": "always"}, {"first": True, "max": 1}, {"first": True, "min": 2, "max": 2},
+                    {"first": True}, {"first": True, "repeat": "never"}):
+            for n in (2, 3, 6):
+                tcp = (b"", [b"%d\n" % i for i in range(n)], [True] * n, b"")
+                ex.dfs(strategy, cfg, tcp, stream="pairs-first-round", max_runs=20 if quick else 200, cap=c09_bound(n) + 1)
     # minimize-collapse-brace: concrete model (re-split through the modelled splitters)
     for data in (b"{\n\n}\n", b"a\n{\n \n}\nb\n", b"x{\n}y\n{\n}\n", b"{\n{\n}\n}\n", b"{ \n\t\n}\n" * 3,
                  # bytes that are not UTF-8, and non-ASCII white space between braces (the collapse is on BYTES)
